@@ -66,14 +66,20 @@ def run(tier, v):
     configs = {"valid": None, "invalid-yaml": "---\n: this is invalid YAML\n  -", "missing-file": "noconfig",
                "bad-source-dir": "source_dir: ./nonexistent\nrust:\n  log_macros:\n    - module: log\n      name: info\n",
                "source-dir-is-file": "source_dir: ./Breadlog.yaml\nrust:\n  log_macros:\n    - module: log\n      name: info\n"}
+    # what a Rust project root usually contains besides the sources (a tool that "helps" by looking at them must still not write)
+    furniture = {"bare": {}, "cargo-package": {"Cargo.toml": "[package]\nname = \"demo\"\nversion = \"0.1.0\"\nedition = \"2021\"\n",
+                                               "Cargo.lock": "version = 3\n", ".gitignore": "/target\n", ".git/HEAD": "ref: refs/heads/main\n",
+                                               "README.md": "# demo\n", "target/.rustc_info.json": "{}\n"}}
     plans = []
-    for (ln, (lk, lx)), (cn, ch), (sn, st), (tn, (tr, tx)), (fn, cf) in itertools.product(
-            locks.items(), caches.items(), structs.items(), trees.items(), configs.items()):
-        if tn == "big" and not (ln in ("absent", "valid") and fn == "valid"):
+    for (ln, (lk, lx)), (cn, ch), (sn, st), (tn, (tr, tx)), (fn, cf), (un, fu) in itertools.product(
+            locks.items(), caches.items(), structs.items(), trees.items(), configs.items(), furniture.items()):
+        if tn == "big" and not (ln in ("absent", "valid") and fn == "valid" and un == "bare"):
+            continue
+        if un == "cargo-package" and not (fn != "valid" or (ln in ("absent", "valid", "git-conflict") and sn == "off")):
             continue
         extras = tuple(lx) + tuple(tx) + (("noconfig",) if cf == "noconfig" else ())
-        sc = fsx.Scenario("cfg[lock=%s cache=%s structured=%s tree=%s config=%s]" % (ln, cn, sn, tn, fn), tr, check=True,
-                          lock=lk, structured=st, use_cache=ch, extras=extras,
+        sc = fsx.Scenario("cfg[lock=%s cache=%s structured=%s tree=%s config=%s root=%s]" % (ln, cn, sn, tn, fn, un), tr, check=True,
+                          lock=lk, structured=st, use_cache=ch, extras=extras, raw_files=fu,
                           config_text=cf if cf not in (None, "noconfig") else None)
         plans.append(sc)
     n = 0
@@ -81,7 +87,7 @@ def run(tier, v):
         ex._account(x)
         oracle(sc, x, x)
         n += 1
-    v.subspace("configuration product lock x use_cache x structured x tree x config (fault-free --check)", n)
+    v.subspace("configuration product lock x use_cache x structured x tree x config x project-root furniture {bare, cargo package} (fault-free --check)", n)
     v.sample({"configuration": plans[0].name})
     v.sample({"configuration": plans[len(plans) // 2].name})
 
